@@ -39,6 +39,9 @@ def vals_grid(rng):
     return rng.choice([N(0), N(1), N(2), N(3), N(-1), N(1, 2), N(3, 2), N(-5, 2), N(1, 4), N(7), N(10)])
 
 
+FINE = [N(1, 8), N(1, 16), N(33, 16), N(-3, 8), N(5, 8)]
+
+
 def has_fluent(tree):
     if tree["t"] != "l":
         return False
@@ -216,7 +219,12 @@ class Gen:
             return L(S("not"), self.atom(extra))
         if not self.with_numeric:
             return self.atom(extra)
-        return L(S(rng.choice(["assign", "increase", "decrease"])), self.fluent(extra), self.expr(rng.choice([0, 1, 2]), extra))
+        rhs = self.expr(rng.choice([0, 1, 2]), extra)
+        if rng.random() < 0.2:
+            # constants that need the 3rd / 4th decimal: effects are printed with 4 decimals (conditions with 2)
+            fine = rng.choice(FINE)
+            rhs = fine if rhs["t"] == "n" or rng.random() < 0.5 else L(S(rng.choice(["+", "-"])), rhs, fine)
+        return L(S(rng.choice(["assign", "increase", "decrease"])), self.fluent(extra), rhs)
 
     def cond(self, extra=()):
         rng = self.rng
